@@ -304,8 +304,21 @@ class CodeBase:
     def __iter__(self):
         """
         Iterate over all files in the code base by walking each directory.
+
+        A directory that is listed more than once (e.g., under its own name
+        and through a symbolic link) or that lies inside another listed
+        directory is not walked a second time: each file is yielded once.
         """
-        for directory in self.directories:
-            for path in Path(directory).rglob("*"):
+        walked = []
+        for directory in self._directories:
+            if directory in walked:
+                continue
+            if any(
+                directory != other and directory.is_relative_to(other)
+                for other in self._directories
+            ):
+                continue
+            walked.append(directory)
+            for path in directory.rglob("*"):
                 if self.__contains__(path):
                     yield str(path)
